@@ -1,7 +1,7 @@
 (* C16 — Clusters with different ids stay isolated: the one-step statements, and the invariant
    over all schedules of a routed network (Isolation.v). *)
 From ChitchatModel Require Import Base SMap Ids Bytes Params NodeState Stream DeltaWire Message
-  Cluster FD Chitchat World SMap_lemmas Cluster_lemmas Chitchat_lemmas Reach Isolation.
+  Cluster FD Chitchat World SMap_lemmas Cluster_lemmas Chitchat_lemmas Reach Isolation FdKnown Routed.
 
 (* A SYN with a different cluster id (any different byte string: empty, prefix, case variant) is
    answered only with BadCluster, produces no event, and the node is what it was except for its
@@ -44,8 +44,7 @@ Print Assumptions C16_badcluster_is_terminal.
    cluster id differs from its own.  (Honest routing is essential: SYN-ACK and ACK carry no cluster
    id, so a SYN-ACK mis-delivered to a node of another cluster would be accepted; that is outside
    the property's "honest clusters".)  The failure detector's live/dead sets are fed only from
-   copies a node holds (report_heartbeat), so they are covered through the copies; that inclusion
-   itself is exercised by the proc suite's two-cluster mode, not proved. *)
+   copies a node holds (report_heartbeat): C16_detector_names_only_own_cluster below. *)
 Theorem C16_two_clusters_isolated : forall zc r, rreachable zc r ->
   forall a b na nb, rnode r a = Some na -> rnode r b = Some nb ->
     cluster_of na <> cluster_of nb -> nm_get (self_id nb) (cs_nodes (nd_cs na)) = None.
@@ -57,6 +56,28 @@ Print Assumptions C16_two_clusters_isolated.
 Theorem C16_isolation_invariant : forall zc r, rreachable zc r -> Iso r.
 Proof. exact rreachable_iso. Qed.
 Print Assumptions C16_isolation_invariant.
+
+(* The routed network is simulated by the global relation of Reach.v (any message ever sent may
+   reach any node, strict = false): every routed world is the world of a [reachable] state whose
+   sent-list contains every packet in flight.  So every invariant proved over [reachable] (C03, C05,
+   C12, C13 ...) holds in the routed network as well. *)
+Theorem C16_routed_network_is_simulated : forall zc r, rreachable zc r ->
+  exists g, reachable zc false g /\ g_w g = r_w r /\ forall pk, In pk (r_net r) -> In (p_msg pk) (g_sent g).
+Proof. exact rreachable_simulated. Qed.
+Print Assumptions C16_routed_network_is_simulated.
+
+(* "no membership leaks": over every schedule of the routed network, the failure detector of a node
+   says nothing about a member of a cluster with a different id — that member is not in
+   live_nodes(), not in dead_nodes(), and owns no sampling window.  (FdKnown.v: in every reachable
+   state the detector only mentions members the node holds a copy of; a copy of a foreign member
+   is never held, by the theorem above.) *)
+Theorem C16_detector_names_only_own_cluster : forall zc,
+  (forall b c, zc b = Some c -> len c <= len b) -> forall r, rreachable zc r ->
+  forall a b na nb, rnode r a = Some na -> rnode r b = Some nb -> cluster_of na <> cluster_of nb ->
+    ~ In (self_id nb) (live_nodes na) /\ ~ In (self_id nb) (dead_nodes na) /\
+    wm_get (self_id nb) (fd_samples (nd_fd na)) = None.
+Proof. exact detector_names_only_own_cluster. Qed.
+Print Assumptions C16_detector_names_only_own_cluster.
 
 (* non-vacuity: two nodes of clusters "c" and "C"; the first gossips to the second (cross-seed);
    the reachable state contains the rejection and both hold only themselves *)
